@@ -20,7 +20,7 @@ def contract(**kw):
     kw.setdefault("tag", "*")
     kw.setdefault("name", kw["module"] + "." + kw["qualname"])
     if kw["module"] in REPLAY:
-        kw.setdefault("replay", REPLAY[kw["module"]])
+        kw.setdefault("replay", dict(tool="veftopng") if (kw["module"], kw["qualname"]) == ("coco.veftopng", "start") else REPLAY[kw["module"]])
     CONTRACTS.append(kw)
     return kw
 
@@ -448,7 +448,8 @@ contract(module="coco.veftopng", qualname="start", tag="C16", also=["C18"],
                   dict(id="indexes-palette", post="forall(0, len(png_bitmap), lambda q: 0 <= png_bitmap[q] and png_bitmap[q] <= 63)", props=["C16", "C18"]),
                   dict(id="palette-is-the-six-bit-colour-code", post="forall(0, 64, lambda k: png_palette[k][0] == px6r(k) and png_palette[k][1] == px6g(k) and png_palette[k][2] == px6b(k))", props=["C16"]),
                   dict(id="palette-has-64-entries", post="len(png_palette) == 64", props=["C16", "C18"]),
-                  dict(id="resize-only-the-640-wide", post="png_resized == (png_w == 640) and implies(png_w == 640, png_resized_w == 640 and png_resized_h == 400)", props=["C16", "C18"])],
+                  dict(id="resize-only-the-640-wide", post="png_resized == (png_w == 640) and implies(png_w == 640, png_resized_w == 640 and png_resized_h == 400)", props=["C16", "C18"]),
+                  dict(id="picture-only-resized", post="not png_altered", props=["C16", "C18"])],
          reveal=["px6r", "px6g", "px6b"],
          raises=[])
 contract(module="coco.veftopng", qualname="start", tag="C19",
